@@ -61,6 +61,8 @@ type Decoder struct {
 	p      []byte
 	offset int
 	mode   DecoderMode
+	// offsets where the field key read by the most recent successful DecodeTag starts and ends
+	keyStart, keyEnd int
 }
 
 // NewDecoder initializes a new Protobuf decoder to read the provided buffer.
@@ -138,6 +140,7 @@ func (d *Decoder) DecodeTag() (tag int, wireType WireType, err error) {
 	if n < 1 || v < 1 || (v>>3) > MaxTagValue {
 		return 0, -1, fmt.Errorf("invalid tag value (%d) at byte %d: %w", v, d.offset, ErrInvalidFieldTag)
 	}
+	d.keyStart, d.keyEnd = d.offset, d.offset+n
 	d.offset += n
 	return int(v >> 3), WireType(v & 0x7), nil
 }
@@ -938,6 +941,11 @@ func (d *Decoder) Skip(tag int, wt WireType) ([]byte, error) {
 	// account for skipping the first field
 	if bof < 0 {
 		bof = 0
+	}
+	// when Skip directly follows the DecodeTag that read this field's key, the field starts where that
+	// key started; this differs from offset-sz when the key was not minimally encoded
+	if d.keyEnd == d.offset && d.keyEnd > d.keyStart {
+		bof = d.keyStart
 	}
 	// validate that the field we're skipping matches the specified tag and wire type
 	// . skip validation in fast mode
